@@ -68,6 +68,11 @@ def cont_jobs(r, names, per_opt: int, modes=True):
         for off in ([1, 3] if per_opt < 10 else [1, 3, 7, 11, P0 + 1, 2 * P0 - 1]):
             jobs.append({"opt": nm, "family": "odd-size", "cfg": {"max_cycles": r.choice([2, 5]), "population_size": P0 + off, "fitness_error": None},
                          "task": {"vars": fams["dim3"](), "obj": r.choice(["sphere", "rastrigin"]), "minmax": r.choice(["min", "max"]), "seed": r.randint(0, 10**6)}})
+        # more workers than agents to create, in both pooled modes (sampled: a pool of 16 processes per run is slow)
+        if nm in names[:2] or r.random() < (0.05 if per_opt < 10 else 0.5):
+            for mode in ("process", "thread"):
+                jobs.append({"opt": nm, "family": "many-workers", "mode": mode, "workers": 16, "cfg": {"max_cycles": 2, "population_size": min(P0, 12), "fitness_error": None},
+                             "task": {"vars": fams["dim3"](), "obj": "sphere", "minmax": r.choice(["min", "max"]), "seed": r.randint(0, 10**6)}})
         # multi-objective (weights), both directions
         for mm in (["min", "max"] if per_opt >= 4 else [r.choice(["min", "max"])]):
             jobs.append({"opt": nm, "family": "multiobj", "cfg": {"max_cycles": r.choice([1, 3]), "population_size": P0, "fitness_error": None},
